@@ -190,10 +190,16 @@ Section Concrete.
                   mkS (s_kind s) (s_rad s) (s_con s) (snd p) (s_dx s) (s_dy s) (s_rx s) (s_ry s) (s_cf s) (s_med s))
         (combine l pos).
 
+  (** Optic.set_radius: a flat surface stays a Plane for an infinite radius and becomes a StandardGeometry (keeping a conic
+      given to it) otherwise; a StandardGeometry goes back to a Plane (radius attribute inf, conic kept) for an infinite
+      radius; every other geometry class just stores the radius *)
   Definition set_rad (v : T) (s : surf) : surf :=
     match s_kind s with
-    | GPlane => mkS GStd v (s_con s) (s_z s) (s_dx s) (s_dy s) (s_rx s) (s_ry s) (s_cf s) (s_med s)   (* keeps a conic given to the flat surface *)
-    | k => mkS k v (s_con s) (s_z s) (s_dx s) (s_dy s) (s_rx s) (s_ry s) (s_cf s) (s_med s)
+    | GPlane => if isinf_ v then s
+                else mkS GStd v (s_con s) (s_z s) (s_dx s) (s_dy s) (s_rx s) (s_ry s) (s_cf s) (s_med s)
+    | GStd => if isinf_ v then mkS GPlane inf_ (s_con s) (s_z s) (s_dx s) (s_dy s) (s_rx s) (s_ry s) (s_cf s) (s_med s)
+              else mkS GStd v (s_con s) (s_z s) (s_dx s) (s_dy s) (s_rx s) (s_ry s) (s_cf s) (s_med s)
+    | GOther => mkS GOther v (s_con s) (s_z s) (s_dx s) (s_dy s) (s_rx s) (s_ry s) (s_cf s) (s_med s)
     end.
   Definition set_con (v : T) (s : surf) : surf :=
     mkS (s_kind s) (s_rad s) v (s_z s) (s_dx s) (s_dy s) (s_rx s) (s_ry s) (s_cf s) (s_med s).
